@@ -412,10 +412,14 @@ class LinearCombination(Expression):
         self,
         coefficients: np.ndarray,
         vector: VectorVariable | VectorExpression,
+        *,
+        _owned: bool = False,
     ) -> None:
-        # (a private copy: values, LP data and cached derivatives must all describe
-        # the same numbers, also if the caller later writes into its array)
-        coefficients = np.array(coefficients)
+        # (a private, read-only copy: values, LP data and cached derivatives must all
+        # describe the same numbers, also if the caller later writes into its array;
+        # _owned: the array already is such a copy, e.g. a row of A in A @ x)
+        coefficients = np.asarray(coefficients) if _owned else np.array(coefficients)
+        coefficients.setflags(write=False)
         vec_size = vector.size if hasattr(vector, "size") else len(vector)
         if len(coefficients) != vec_size:
             raise DimensionMismatchError(
@@ -1346,7 +1350,7 @@ class VectorVariable:
                     )
                 ):
                     # This is x.dot(A @ x) - return QuadraticForm for O(1) gradient
-                    return QuadraticForm(self, other.matrix)
+                    return QuadraticForm(self, other.matrix, _owned=True)
 
         return DotProduct(self, other)
 
